@@ -430,6 +430,20 @@ class Combo:
         if abs(e0 - float(self.mf.e_tot)) > TOL_ORACLE:
             raise RuntimeError(f"oracle: determinant energy {e0} != SCF energy {self.mf.e_tot} ({name},{gi},{uhf})")
 
+    def live(self, spec):
+        if not isinstance(spec, list):
+            return spec
+        if len(spec) == 2 and all(isinstance(x, list) for x in spec):
+            if not hasattr(self, "_live2"):
+                self._live2 = [[], []]
+            self._live2[0][:] = spec[0]
+            self._live2[1][:] = spec[1]
+            return self._live2
+        if not hasattr(self, "_live1"):
+            self._live1 = []
+        self._live1[:] = spec
+        return self._live1
+
     def _C(self, C):
         return (np.asarray(C[0]), np.asarray(C[1])) if self.uhf else np.asarray(C)
 
@@ -462,11 +476,16 @@ class Combo:
         sigp = f"{self.ref}:{label}"
         case0 = self.case(label, spec, "id")
         try:
+            # history: the Hamiltonian of the previous selection has just been evaluated at the current orbitals (no orbital
+            # assignment in between), then the selection changes
+            _ = mol.fermionic_hamiltonian
             mol.freeze_mos(None)
             full = repr(mol.active_mos)
             cp = mol.freeze_mos(spec, inplace=False)
             untouched = (repr(mol.active_mos) == full)
-            mol.freeze_mos(spec)
+            # history: list-valued selections are handed over in ONE list object that the caller re-fills in place from pattern to
+            # pattern (anything keyed on the identity of that list, or holding a reference to it, goes stale here)
+            mol.freeze_mos(self.live(spec))
         except Exception as e:
             self.bad("freeze_mos", "exception", sigp, case0, {"err": repr(e)[:300]})
             return
@@ -576,7 +595,8 @@ class Combo:
                 self._restore()
             # ---- real code: set orbitals, build the fermionic Hamiltonian ---------------------------------------------
             try:
-                mol.mo_coeff = C
+                if rot != "id":
+                    mol.mo_coeff = C          # (identity: the SCF orbitals restored after the previous rotation are still in place)
                 ferm = mol.fermionic_hamiltonian
                 mf_energy = float(mol.mf_energy)
             except Exception as e:
